@@ -8,6 +8,7 @@ import PPLV.Interval.ProofsWiden
 import PPLV.Interval.ProofsWrap
 import PPLV.Interval.ProofsLinearize
 import PPLV.Interval.ProofsFloatModel
+import PPLV.Interval.ProofsDiffExact
 import Mathlib.Tactic.NormNum
 /-!
 # C12 — interval arithmetic encloses every concrete result
@@ -371,6 +372,52 @@ example : (linearize false Policy.floating Rounding.double ⟨1 / 8388608, 1 / 4
     (.div (.var 0) (.const (Iv.point 2) 2))).isSome = true := by decide +kernel
 example : linearize false Policy.floating Rounding.double ⟨1 / 8388608, 1 / 4⟩ [Iv.closed (-1) 1] (fun _ => none)
     (.div (.const (Iv.point 1) 1) (.var 0)) = none := by decide +kernel
+
+/-! ## `difference_assign` and the repaired `refine_universal(NOT_EQUAL, ·)` (commit 17f6149) -/
+
+/-- enclosure, every policy and sound rounding: every member of `I` that differs from all members
+of `J` (i.e. is not in `J`) stays -/
+theorem refine_universal_ne_encloses (pol : Policy) (R : Rounding) (hR : R.Sound) (I J : Iv) (a : Rat)
+    (ha : I.mem pol a) (hJ : ¬ J.mem pol a) : (refineUniversal pol R I .ne J).mem pol a :=
+  refineUniversal_ne_encloses hR ha hJ
+
+/-- **`refine_universal(NOT_EQUAL, J)` returns the smallest interval containing `I ∖ J`**: with exact
+rounding and a policy that stores OPEN bits (otherwise the complement bound cannot be represented),
+for intervals as `OK()` admits them (bounds on their own sides, infinite bounds open), a value is in
+the result iff it lies between two members of the difference.  Empty `I` or `J` included. -/
+theorem refine_universal_ne_spec (pol : Policy) (hso : pol.storeOpen = true) (I J : Iv)
+    (hI : I.OKReal) (hJ : J.OKReal) (c : Rat) :
+    (refineUniversal pol Rounding.id I .ne J).mem pol c ↔
+      ∃ s1 s2, (I.mem pol s1 ∧ ¬ J.mem pol s1) ∧ (I.mem pol s2 ∧ ¬ J.mem pol s2) ∧ s1 ≤ c ∧ c ≤ s2 :=
+  refineUniversal_ne_hull hso hI hJ c
+
+/-- the same for `difference_assign` itself; the `⊇` half holds for every policy and sound rounding -/
+theorem difference_spec (pol : Policy) (hso : pol.storeOpen = true) (I J : Iv)
+    (hI : I.OKReal) (hJ : J.OKReal) (c : Rat) :
+    (differenceAssign pol Rounding.id I J).mem pol c ↔
+      ∃ s1 s2, (I.mem pol s1 ∧ ¬ J.mem pol s1) ∧ (I.mem pol s2 ∧ ¬ J.mem pol s2) ∧ s1 ≤ c ∧ c ≤ s2 :=
+  ⟨fun h => differenceAssign_subset_hull hso hI hJ h,
+   fun ⟨s1, s2, h1, h2, hc1, hc2⟩ => differenceAssign_hull_subset Rounding.id_sound h1 h2 hc1 hc2⟩
+
+example : refineUniversal Policy.rational Rounding.id (Iv.closed 0 2) .ne (Iv.closed 0 (1 / 2))
+    = ⟨⟨fin (1 / 2), true⟩, ⟨fin 2, false⟩⟩ := by decide +kernel
+
+/-- Before the repair (KF-C12-5) only coinciding end points were opened: `[0,2]` refined by
+"≠ all of `[0,1/2]`" stayed `(0,2]`, which is not the smallest interval containing `(1/2,2]`:
+`1/4` is in it but below every member of the difference. -/
+theorem refine_universal_ne_before_fix_fails :
+    ¬ (∀ (I J : Iv) (c : Rat), (refineUniversalNeBeforeFix Policy.rational I J).mem Policy.rational c →
+        ∃ s1 s2, (I.mem Policy.rational s1 ∧ ¬ J.mem Policy.rational s1)
+          ∧ (I.mem Policy.rational s2 ∧ ¬ J.mem Policy.rational s2) ∧ s1 ≤ c ∧ c ≤ s2) := by
+  intro h
+  have hv : refineUniversalNeBeforeFix Policy.rational (Iv.closed 0 2) (Iv.closed 0 (1 / 2))
+      = ⟨⟨fin 0, true⟩, ⟨fin 2, false⟩⟩ := by decide +kernel
+  obtain ⟨s1, s2, ⟨h1, h1'⟩, _, hc1, _⟩ := h (Iv.closed 0 2) (Iv.closed 0 (1 / 2)) (1 / 4)
+    (by rw [hv]; simp [Iv.mem, lowerOk, upperOk, getOpen, Policy.rational]; norm_num)
+  simp only [Iv.closed, Iv.mem, lowerOk, upperOk, getOpen, Policy.rational, Bool.and_false,
+    lowerOkV_fin_closed, upperOkV_fin_closed, not_and, not_le] at h1 h1'
+  have := h1' h1.1
+  linarith
 
 /-! ## wrapping (defect 12) -/
 
